@@ -18,19 +18,92 @@ pub fn root() -> PathBuf {
     PathBuf::from(std::env::var("CX_ROOT").unwrap_or_else(|_| "/verif".to_string()))
 }
 
+/// A family of generated cases: histories over the adoption API (`Script`),
+/// straight-line programs for the differential check (C07), size/shape
+/// parameters for the scaling check (C15).
+pub trait Kind {
+    type Case: Clone + std::fmt::Debug + Serialize + serde::de::DeserializeOwned + 'static;
+    fn strategy(id: &str, tier: Tier, variant: u64) -> proptest::strategy::BoxedStrategy<Self::Case>;
+    fn run(id: &str, tier: Tier, c: &Self::Case) -> CaseResult;
+    fn compact(c: &Self::Case) -> String;
+    fn sample_ok(_c: &Self::Case) -> bool {
+        true
+    }
+    fn label_names() -> Vec<String>;
+    fn totals(c: &[u64]) -> serde_json::Value;
+    fn assumptions() -> Vec<String>;
+}
+
+pub fn case_json<C: Serialize>(c: &C) -> String {
+    serde_json::to_string(c).unwrap()
+}
+
+pub fn case_hash<C: Serialize>(c: &C) -> u64 {
+    let mut h: u64 = 0xcbf2_9ce4_8422_2325;
+    for b in case_json(c).bytes() {
+        h ^= b as u64;
+        h = h.wrapping_mul(0x1_0000_0001_b3);
+    }
+    h
+}
+
+pub struct ScriptKind;
+
+impl Kind for ScriptKind {
+    type Case = Script;
+    fn strategy(id: &str, tier: Tier, variant: u64) -> proptest::strategy::BoxedStrategy<Script> {
+        gen::script(props::gen_cfg(id, tier, variant))
+    }
+    fn run(id: &str, tier: Tier, c: &Script) -> CaseResult {
+        run_case(id, tier, c)
+    }
+    fn compact(c: &Script) -> String {
+        c.compact()
+    }
+    fn sample_ok(c: &Script) -> bool {
+        c.ops.len() <= 40
+    }
+    fn label_names() -> Vec<String> {
+        let mut v: Vec<String> = lab::NAMES.iter().map(|s| s.to_string()).collect();
+        while v.len() < 64 {
+            v.push(String::new());
+        }
+        v[ORDERS_DIFFERED as usize] = "layouts_with_different_table_orders".into();
+        v
+    }
+    fn totals(c: &[u64]) -> serde_json::Value {
+        serde_json::json!({
+            "ops": c[ctr::OPS], "noop_ops": c[ctr::NOOPS], "objects": c[ctr::OBJECTS],
+            "group_collections": c[ctr::COLLECTIONS], "max_group": c[ctr::MAX_GROUP],
+            "zero_count_deaths_with_records": c[ctr::RULEB_DEATHS], "plain_deaths": c[ctr::PLAIN_DEATHS],
+            "audits": c[ctr::AUDITS], "table_snapshots": c[ctr::SNAPSHOTS], "upgrades": c[ctr::UPGRADES],
+            "destructor_actions": c[ctr::DACTS_RUN], "ruleA_obligations": c[ctr::OBLIG_A], "ruleB_obligations": c[ctr::OBLIG_B],
+            "inert_drops": c[ctr::INERT_DROPS], "arena_blocks": c[ctr::ARENA_BLOCKS], "cost_checks": c[ctr::COST_CHECKS],
+            "traces": c[ctr::TRACE_CALLS], "injected_panics": c[ctr::PANICS],
+        })
+    }
+    fn assumptions() -> Vec<String> {
+        vec![
+            "generated histories respect the documented adopt contract (recorded <= held) except for elided unadopt in ELIDE mode".into(),
+            "sizes explored: <= 60 objects, <= 12 stored handles per object; see DESIGN.md section 7".into(),
+            "the reference model (harness/src/model.rs) and hooks H1-H3 (cfg cactusref_verif) are trusted".into(),
+        ]
+    }
+}
+
 #[derive(Serialize, Deserialize, Clone)]
-pub struct ReplayFile {
+pub struct ReplayFile<C> {
     pub props: Vec<String>,
     pub note: String,
-    pub script: Script,
+    pub script: C,
 }
 
 #[derive(Serialize, Deserialize, Default, Clone)]
 pub struct Failure {
-    pub script: Option<Script>,
+    pub script: Option<serde_json::Value>,
     pub msg: String,
     pub first_msg: String,
-    pub first_script: Option<Script>,
+    pub first_script: Option<serde_json::Value>,
 }
 
 #[derive(Serialize, Deserialize, Default)]
@@ -138,6 +211,14 @@ fn mix(a: u64, b: u64) -> u64 {
 // ---- worker ------------------------------------------------------------------
 
 pub fn worker(args: &[String]) -> i32 {
+    match args[0].as_str() {
+        "C07" => worker_k::<crate::c07::ProgKind>(args),
+        "C15" => worker_k::<crate::c15::ScaleKind>(args),
+        _ => worker_k::<ScriptKind>(args),
+    }
+}
+
+pub fn worker_k<K: Kind>(args: &[String]) -> i32 {
     let id = args[0].clone();
     let tier = parse_tier(args);
     let seed: u64 = arg(args, "--seed").unwrap().parse().unwrap();
@@ -146,8 +227,7 @@ pub fn worker(args: &[String]) -> i32 {
     let out_path = arg(args, "--out").unwrap().to_string();
     init_process();
     let out = WorkerOut { label_hist: vec![0; 64], counters: vec![0; exec::NCOUNTERS], ..Default::default() };
-    let gcfg = props::gen_cfg(&id, tier, index);
-    let strat = gen::script(gcfg);
+    let strat = K::strategy(&id, tier, index);
     let mut idb: u64 = 0;
     for b in id.bytes() {
         idb = idb.wrapping_mul(131).wrapping_add(b as u64);
@@ -166,11 +246,11 @@ pub fn worker(args: &[String]) -> i32 {
         out: WorkerOut,
         failed: bool,
         hashes: BTreeSet<u64>,
-        first_fail: Option<(Script, String)>,
+        first_fail: Option<(serde_json::Value, String)>,
     }
     let state = std::cell::RefCell::new(State { out, failed: false, hashes: BTreeSet::new(), first_fail: None });
     let result = runner.run(&strat, |s| {
-        let r = run_case(&id, tier, &s);
+        let r = K::run(&id, tier, &s);
         let mut guard = state.borrow_mut();
         let State { out, failed, hashes, first_fail } = &mut *guard;
         if !*failed {
@@ -195,9 +275,9 @@ pub fn worker(args: &[String]) -> i32 {
                         out.expected_abort += 1;
                     }
                     if r.nontrivial {
-                        let h = s.hash();
-                        if hashes.insert(h) && out.samples.len() < 6 && s.ops.len() <= 40 {
-                            out.samples.push(s.compact());
+                        let h = case_hash(&s);
+                        if hashes.insert(h) && out.samples.len() < 6 && K::sample_ok(&s) {
+                            out.samples.push(K::compact(&s));
                         }
                     }
                 }
@@ -217,14 +297,14 @@ pub fn worker(args: &[String]) -> i32 {
                 Outcome::Internal | Outcome::None => {
                     out.internal += 1;
                     if out.internal_msgs.len() < 5 {
-                        out.internal_msgs.push(format!("{} :: {}", r.msg, s.to_json()));
+                        out.internal_msgs.push(format!("{} :: {}", r.msg, case_json(&s)));
                     }
                 }
                 Outcome::Exhausted => out.exhausted += 1,
                 Outcome::Timeout => {
                     out.timeout += 1;
                     if out.timeout_scripts.len() < 3 {
-                        out.timeout_scripts.push(s.to_json());
+                        out.timeout_scripts.push(case_json(&s));
                     }
                 }
             }
@@ -232,7 +312,7 @@ pub fn worker(args: &[String]) -> i32 {
         if r.outcome == Outcome::Violation {
             if !*failed {
                 *failed = true;
-                *first_fail = Some((s.clone(), r.msg.clone()));
+                *first_fail = Some((serde_json::to_value(&s).unwrap(), r.msg.clone()));
             }
             Err(TestCaseError::fail(r.msg))
         } else {
@@ -245,7 +325,7 @@ pub fn worker(args: &[String]) -> i32 {
         let (ffs, ffm) = first_fail.clone().map(|(s, m)| (Some(s), m)).unwrap_or((None, String::new()));
         match e {
             TestError::Fail(reason, s) => {
-                out.failure = Some(Failure { script: Some(s), msg: reason.message().to_string(), first_msg: ffm, first_script: ffs });
+                out.failure = Some(Failure { script: Some(serde_json::to_value(&s).unwrap()), msg: reason.message().to_string(), first_msg: ffm, first_script: ffs });
             }
             TestError::Abort(reason) => {
                 out.failure = Some(Failure { script: ffs.clone(), msg: format!("aborted: {}", reason.message()), first_msg: ffm, first_script: ffs });
@@ -258,9 +338,9 @@ pub fn worker(args: &[String]) -> i32 {
 
 // ---- replay --------------------------------------------------------------------
 
-pub fn load_replay(path: &Path) -> Result<ReplayFile, String> {
+pub fn load_replay<C: serde::de::DeserializeOwned>(path: &Path) -> Result<ReplayFile<C>, String> {
     let txt = std::fs::read_to_string(path).map_err(|e| format!("{}: {}", path.display(), e))?;
-    serde_json::from_str::<ReplayFile>(&txt).map_err(|e| format!("{}: {}", path.display(), e))
+    serde_json::from_str::<ReplayFile<C>>(&txt).map_err(|e| format!("{}: {}", path.display(), e))
 }
 
 pub fn replay_cmd(args: &[String]) -> i32 {
@@ -268,10 +348,18 @@ pub fn replay_cmd(args: &[String]) -> i32 {
         eprintln!("usage: cxcheck replay <PROP> <file>");
         return 2;
     }
+    match args[0].as_str() {
+        "C07" => replay_k::<crate::c07::ProgKind>(args),
+        "C15" => replay_k::<crate::c15::ScaleKind>(args),
+        _ => replay_k::<ScriptKind>(args),
+    }
+}
+
+pub fn replay_k<K: Kind>(args: &[String]) -> i32 {
     let id = &args[0];
     let path = PathBuf::from(&args[1]);
     let tier = parse_tier(args);
-    let rf = match load_replay(&path) {
+    let rf = match load_replay::<K::Case>(&path) {
         Ok(r) => r,
         Err(e) => {
             eprintln!("{}", e);
@@ -279,10 +367,11 @@ pub fn replay_cmd(args: &[String]) -> i32 {
         }
     };
     init_process();
-    let r = run_case(id, tier, &rf.script);
-    println!("script: {}", rf.script.compact());
+    let r = K::run(id, tier, &rf.script);
+    println!("script: {}", K::compact(&rf.script));
     println!("outcome: {:?} {}", r.outcome, r.msg);
-    let names: Vec<&str> = (0..lab::NAMES.len()).filter(|&l| r.labels & (1u64 << l) != 0).map(|l| lab::NAMES[l]).collect();
+    let ln = K::label_names();
+    let names: Vec<&str> = (0..64).filter(|&l| r.labels & (1u64 << l) != 0 && !ln[l].is_empty()).map(|l| ln[l].as_str()).collect();
     println!("labels: {:?} nontrivial={}", names, r.nontrivial);
     match r.outcome {
         Outcome::Violation => {
@@ -323,10 +412,10 @@ pub fn load_known() -> KnownFile {
     }
 }
 
-fn save_found(id: &str, s: &Script, note: &str) -> PathBuf {
+fn save_found<C: Serialize + Clone>(id: &str, s: &C, note: &str) -> PathBuf {
     let dir = root().join("replays/found");
     let _ = std::fs::create_dir_all(&dir);
-    let path = dir.join(format!("{}-{:016x}.json", id, s.hash()));
+    let path = dir.join(format!("{}-{:016x}.json", id, case_hash(s)));
     let rf = ReplayFile { props: vec![id.to_string()], note: note.to_string(), script: s.clone() };
     let _ = std::fs::write(&path, serde_json::to_string_pretty(&rf).unwrap());
     path
@@ -337,12 +426,15 @@ pub fn launcher(args: &[String]) -> i32 {
         eprintln!("usage: cxcheck run <PROP> [--tier quick|thorough]");
         return 2;
     }
-    let id = args[0].clone();
-    match id.as_str() {
-        "C07" => return crate::runner::special(&id, args),
-        "C15" => return crate::runner::special(&id, args),
-        _ => {}
+    match args[0].as_str() {
+        "C07" => launcher_k::<crate::c07::ProgKind>(args),
+        "C15" => launcher_k::<crate::c15::ScaleKind>(args),
+        _ => launcher_k::<ScriptKind>(args),
     }
+}
+
+pub fn launcher_k<K: Kind>(args: &[String]) -> i32 {
+    let id = args[0].clone();
     let Some(p) = props::prop(&id) else {
         eprintln!("unknown property {}", id);
         return 2;
@@ -365,14 +457,21 @@ pub fn launcher(args: &[String]) -> i32 {
         .unwrap_or_default();
     files.sort();
     for f in &files {
-        let Ok(rf) = load_replay(f) else {
+        // replay files of other case kinds do not parse as this kind: check the property list first
+        let Ok(txt) = std::fs::read_to_string(f) else { continue };
+        let Ok(hdr) = serde_json::from_str::<serde_json::Value>(&txt) else {
             undecided.push(format!("unreadable replay {}", f.display()));
             continue;
         };
-        if !rf.props.iter().any(|x| x == &id) {
+        let listed = hdr.get("props").and_then(|p| p.as_array()).map(|a| a.iter().any(|x| x.as_str() == Some(id.as_str()))).unwrap_or(false);
+        if !listed {
             continue;
         }
-        let r = run_case(&id, tier, &rf.script);
+        let Ok(rf) = load_replay::<K::Case>(f) else {
+            undecided.push(format!("unreadable replay {}", f.display()));
+            continue;
+        };
+        let r = K::run(&id, tier, &rf.script);
         replayed += 1;
         match r.outcome {
             Outcome::Violation => violations.push((f.clone(), r.msg.clone())),
@@ -384,9 +483,9 @@ pub fn launcher(args: &[String]) -> i32 {
     let known = load_known();
     for k in known.known.iter().filter(|k| k.property == id) {
         let path = root().join(&k.example_replay);
-        match load_replay(&path) {
+        match load_replay::<K::Case>(&path) {
             Ok(rf) => {
-                let r = run_case(&id, tier, &rf.script);
+                let r = K::run(&id, tier, &rf.script);
                 replayed += 1;
                 match r.outcome {
                     Outcome::KnownFinding => known_lines.push(format!("KNOWN-FINDING: property={} {} [{}] example={}", id, k.what, k.id, k.example_replay)),
@@ -480,16 +579,18 @@ pub fn launcher(args: &[String]) -> i32 {
     let _ = std::fs::remove_dir_all(&run_dir);
 
     // smallest shrunk failure becomes the replay file
-    failures.sort_by_key(|f| f.script.as_ref().map(|s| s.to_json().len()).unwrap_or(usize::MAX));
+    failures.sort_by_key(|f| f.script.as_ref().map(|s| s.to_string().len()).unwrap_or(usize::MAX));
     if let Some(f) = failures.first() {
-        if let Some(s) = &f.script {
-            // re-judge the shrunk script; fall back to the first failing script
-            let r = run_case(&id, tier, s);
+        if let Some(sv) = &f.script {
+            // re-judge the shrunk case; fall back to the first failing case
+            let s: K::Case = serde_json::from_value(sv.clone()).expect("worker returned an unparsable case");
+            let r = K::run(&id, tier, &s);
             if r.outcome == Outcome::Violation {
-                let path = save_found(&id, s, &r.msg);
+                let path = save_found(&id, &s, &r.msg);
                 violations.push((path, r.msg));
             } else if let Some(fs) = &f.first_script {
-                let path = save_found(&id, fs, &f.first_msg);
+                let fs: K::Case = serde_json::from_value(fs.clone()).expect("worker returned an unparsable case");
+                let path = save_found(&id, &fs, &f.first_msg);
                 violations.push((path, f.first_msg.clone()));
             }
         }
@@ -510,13 +611,10 @@ pub fn launcher(args: &[String]) -> i32 {
     // 3. evidence
     let wall = t0.elapsed().as_secs_f64();
     let mut labels = serde_json::Map::new();
-    for (i, name) in lab::NAMES.iter().enumerate() {
-        if merged.label_hist[i] > 0 {
+    for (i, name) in K::label_names().iter().enumerate() {
+        if i < 64 && merged.label_hist[i] > 0 && !name.is_empty() {
             labels.insert(name.to_string(), serde_json::json!(merged.label_hist[i]));
         }
-    }
-    if merged.label_hist[ORDERS_DIFFERED as usize] > 0 {
-        labels.insert("layouts_with_different_table_orders".into(), serde_json::json!(merged.label_hist[ORDERS_DIFFERED as usize]));
     }
     let c = &merged.counters;
     let ev = serde_json::json!({
@@ -546,23 +644,11 @@ pub fn launcher(args: &[String]) -> i32 {
             "inconclusive_examples": merged.other_msgs.iter().take(3).collect::<Vec<_>>(),
             "known_finding_examples": merged.kf_msgs.iter().take(2).collect::<Vec<_>>(),
             "labels": labels,
-            "totals": {
-                "ops": c[ctr::OPS], "noop_ops": c[ctr::NOOPS], "objects": c[ctr::OBJECTS],
-                "group_collections": c[ctr::COLLECTIONS], "max_group": c[ctr::MAX_GROUP],
-                "zero_count_deaths_with_records": c[ctr::RULEB_DEATHS], "plain_deaths": c[ctr::PLAIN_DEATHS],
-                "audits": c[ctr::AUDITS], "table_snapshots": c[ctr::SNAPSHOTS], "upgrades": c[ctr::UPGRADES],
-                "destructor_actions": c[ctr::DACTS_RUN], "ruleA_obligations": c[ctr::OBLIG_A], "ruleB_obligations": c[ctr::OBLIG_B],
-                "inert_drops": c[ctr::INERT_DROPS], "arena_blocks": c[ctr::ARENA_BLOCKS], "cost_checks": c[ctr::COST_CHECKS],
-                "traces": c[ctr::TRACE_CALLS], "injected_panics": c[ctr::PANICS],
-            },
+            "totals": K::totals(c),
             "workers": nworkers,
             "layouts_per_case": if tier == Tier::Thorough { p.layouts_thorough } else { p.layouts_quick },
         },
-        "assumptions": [
-            "generated histories respect the documented adopt contract (recorded <= held) except for elided unadopt in ELIDE mode",
-            "sizes explored: <= 60 objects, <= 12 stored handles per object; see DESIGN.md section 7",
-            "the reference model (harness/src/model.rs) and hooks H1-H3 (cfg cactusref_verif) are trusted",
-        ],
+        "assumptions": K::assumptions(),
         "wall_s": wall,
         "violations": violations.len(),
     });
